@@ -192,11 +192,11 @@ func flip(b []byte, i int) []byte {
 }
 
 type optField struct {
-	name  string
-	size  int
-	get   func(q *pb.QuoteV4) []byte
-	set   func(o *validate.Options, v []byte)
-	setP  func(p *ccpb.Policy, v []byte)
+	name string
+	size int
+	get  func(q *pb.QuoteV4) []byte
+	set  func(o *validate.Options, v []byte)
+	setP func(p *ccpb.Policy, v []byte)
 }
 
 var optFields = []optField{
@@ -225,7 +225,7 @@ func fieldVariants(r *rand.Rand, v []byte) map[string][]byte {
 var variantOrder = []string{"nil", "empty", "equal", "diff-first", "diff-last", "diff-random", "short", "long"}
 
 func C08(c *core.Ctx) {
-	c.Rule = "quotes: structurally valid messages with mask-respecting XFAM/TD_ATTRIBUTES, every single XFAM and TD_ATTRIBUTES bit flipped, SVNs around each minimum; options: every field independently nil/empty/equal/differing in first,last,random byte/one short/one long, minimum SVNs at min-1,min,min+1,0,65535, TEE TCB SVN minima per component, RTMR lists of length 0..5 and allowed-MR_TD lists of length 0..4 with empty, matching, mismatching and wrongly sized entries, random combinations, nil options, malformed messages; through validate.TdxQuote and validate.RawTdxQuote. non-trivial = message passes CheckQuoteV4 and options non-nil; distinct = distinct (message, options)"
+	c.Rule = "quotes: structurally valid messages with mask-respecting XFAM/TD_ATTRIBUTES, every single XFAM and TD_ATTRIBUTES bit flipped, SVNs around each minimum; options: every field independently nil/empty/equal/differing in first,last,random byte/one short/one long, minimum SVNs at min-1,min,min+1,0,65535, TEE TCB SVN minima per component, RTMR lists of length 0..5 and allowed-MR_TD lists of length 0..4 with empty, matching, mismatching and wrongly sized entries, every expectation configured and met, then exactly one missed; random combinations, nil options, malformed messages; through validate.TdxQuote and validate.RawTdxQuote. non-trivial = message passes CheckQuoteV4 and options non-nil; distinct = distinct (message, options)"
 	r := c.Rng
 	run := func(class, desc string, q *pb.QuoteV4, o *validate.Options) {
 		if !c.Wanted() {
